@@ -341,7 +341,7 @@ def build_jobs(ctx, pairs):
 # weights along 80..150-hop chains under/overflowing a double (raw weights leaking into a routine
 # that should only see the zero pattern) ; integer weights whose products wrap ; dense graphs beyond
 # n = 10.  A few seeded inputs per regime; every pair of the table whose domain admits the input is run.
-BIG_LIMIT = 240.0           # s per call (a 150-node betweenness_bin takes 1..30 s on a busy machine)
+BIG_LIMIT = 120.0           # s per call (a 150-node betweenness_bin takes 1..10 s on a busy machine)
 POW20 = 2 ** 20
 REGIMES = {                 # name -> (scale of the encoding, draw of one weight)
     "tiny": (10 ** 6, lambda rng: rng.randint(100, 1000) / 1e6),         # 1e-4 .. 1e-3
@@ -352,13 +352,15 @@ REGIMES = {                 # name -> (scale of the encoding, draw of one weight
 PATH_PAIRS = ("distance_wei", "betweenness_wei", "edge_betweenness_wei", "efficiency_wei", "reachdist")
 
 
-def s_diamonds(k):
-    """chain of k diamonds: 3k+1 nodes, 2^k equal shortest paths between its two ends"""
+def s_diamonds(k, width=2):
+    """chain of k diamonds: (width+1)k+1 nodes, width^k equal shortest paths between its two ends
+    (powers of two are exact in every float type, powers of three beyond 2^24 / 2^53 are not)"""
     E = []
     for d in range(k):
-        a = 3 * d
-        E += [(a, a + 1), (a, a + 2), (a + 1, a + 3), (a + 2, a + 3)]
-    return 3 * k + 1, E
+        a = (width + 1) * d
+        for b in range(1, width + 1):
+            E += [(a, a + b), (a + b, a + width + 1)]
+    return (width + 1) * k + 1, E
 
 
 def s_lollipop(m, n):
@@ -378,6 +380,8 @@ def scale_supports(ctx, rng):
         out.append(("clique+path", n, s_lollipop(m, n), True))     # walk counts beyond 1e38 / 2^63
         k = rng.randint(33, 36) if ctx.quick else rng.randint(33, 45)
         out.append(("diamonds", ) + s_diamonds(k) + (True,))       # 2^33.. equal shortest paths
+        k = rng.randint(24, 30)                         # 3^24..3^30 paths: not a float32 number
+        out.append(("diamonds3", ) + s_diamonds(k, 3) + (False,))
         n = rng.randint(130, 150)                       # one degree beyond 127
         out.append(("star", n, rc.s_star(n), False))
         for _d in range(2):
@@ -387,6 +391,8 @@ def scale_supports(ctx, rng):
     if not ctx.quick:
         k = rng.randint(64, 68)                         # beyond 2^63 equal shortest paths
         out.append(("diamonds", ) + s_diamonds(k) + (True,))
+        k = rng.randint(34, 40)                         # 3^34.. > 2^53: not a float64 number either
+        out.append(("diamonds3", ) + s_diamonds(k, 3) + (True,))
         n = rng.randint(180, 200)
         out.append(("chain", n, rc.s_path(n), False))
         n = rng.randint(230, 260)                       # a ring needs n > 200 for 100+-hop distances
@@ -517,13 +523,14 @@ def run(ctx):
                 "random n in 6..10 (sparse/disconnected/isolated node/dense) and structured families (paths, "
                 "cycles, stars, complete, bipartite, caterpillars, rings of cliques, equal/unequal components; "
                 "also oriented) with weight sets incl. single values, all choices RNG-drawn; a seeded scale-regime family "
-                "(%d records: chains/rings/caterpillars/clique+path of 100..150 nodes%s, chains of 33..40%s diamonds, "
+                "(%d records: chains/caterpillars/clique+path%s of 100..150 nodes, chains of 33..36%s diamonds (2^k equal "
+                "shortest paths) and of 24..30 three-way diamonds (3^k), "
                 "a star with a degree > 127, dense graphs n in 17..40; as 0/1 matrices and with weights 1e-4..1e-3, "
                 "1e3..1e4, 2^1..2^20, 2^-20..2^-8; path-count inputs under every argument dtype); "
                 "non-trivial = distinct (pair, input) "
                 "judged (not skipped) whose first output has a nonzero entry"
                 % (len(pairs), "sampled" if ctx.quick else "all", len(bjobs),
-                   "" if ctx.quick else " (and up to 260)", "" if ctx.quick else " and 64..68"))
+                   "" if ctx.quick else "/rings (up to 260)", "" if ctx.quick else ", 64..68"))
     k = next((i for i, j in enumerate(jobs) if j["src"].endswith("-und-weighted") and j["src"][:5] != "model"), 0)
     ctx.add_sample("model-input", dict(job=jobs[40], record=recs[40], verdict=verdicts[40]))
     ctx.add_sample("random-input", dict(job=jobs[k], record=recs[k], verdict=verdicts[k]))
